@@ -337,6 +337,10 @@ func checkC20Claim(t *Toks) string {
 				return fail("claim-witness", fmt.Sprintf("element=%d", i))
 			}
 		}
+		// the fifth element is the witness-stripped transaction: it hashes to the txid the proof proves
+		if !bytes.Equal(dsha(in.PeginWitness[4]), omatches[0]) {
+			return fail("claim-witness", "stripped-tx-does-not-hash-to-the-proven-txid")
+		}
 		if !sameList(back.Inputs[0].PeginWitness, in.PeginWitness) {
 			return fail("claim-witness", "wire")
 		}
